@@ -9,11 +9,11 @@ open Spec
 
 /-! ### sorted association maps -/
 
-def AmSorted {β : Type} : List (Nat × β) → Prop
+def AmSorted_a6 {β : Type} : List (Nat × β) → Prop
   | [] => True
-  | p :: rest => (∀ q ∈ rest, p.1 < q.1) ∧ AmSorted rest
+  | p :: rest => (∀ q ∈ rest, p.1 < q.1) ∧ AmSorted_a6 rest
 
-theorem amLookup_amInsert {β : Type} (k k' : Nat) (v : β) (l : List (Nat × β)) :
+theorem amLookup_amInsert_a6 {β : Type} (k k' : Nat) (v : β) (l : List (Nat × β)) :
     amLookup k (amInsert k' v l) = if k = k' then some v else amLookup k l := by
   induction l with
   | nil => simp [amInsert, amLookup]
@@ -34,7 +34,7 @@ theorem amLookup_amInsert {β : Type} (k k' : Nat) (v : β) (l : List (Nat × β
           simp [h3]; intro h; omega
         · simp [h3]
 
-theorem mem_amInsert {β : Type} {k : Nat} {v : β} {l : List (Nat × β)} {q : Nat × β}
+theorem mem_amInsert_a6 {β : Type} {k : Nat} {v : β} {l : List (Nat × β)} {q : Nat × β}
     (h : q ∈ amInsert k v l) : q = (k, v) ∨ q ∈ l := by
   induction l with
   | nil => simp [amInsert] at h; exact Or.inl h
@@ -55,10 +55,10 @@ theorem mem_amInsert {β : Type} {k : Nat} {v : β} {l : List (Nat × β)} {q : 
           · exact Or.inl h
           · exact Or.inr (Or.inr h)
 
-theorem amInsert_sorted {β : Type} (k : Nat) (v : β) (l : List (Nat × β)) (h : AmSorted l) :
-    AmSorted (amInsert k v l) := by
+theorem amInsert_sorted {β : Type} (k : Nat) (v : β) (l : List (Nat × β)) (h : AmSorted_a6 l) :
+    AmSorted_a6 (amInsert k v l) := by
   induction l with
-  | nil => simp [amInsert, AmSorted]
+  | nil => simp [amInsert, AmSorted_a6]
   | cons p rest ih =>
     obtain ⟨k2, v2⟩ := p
     obtain ⟨h1, h2⟩ := h
@@ -77,11 +77,11 @@ theorem amInsert_sorted {β : Type} (k : Nat) (v : β) (l : List (Nat × β)) (h
       · rw [if_neg c2]
         refine ⟨?_, ih h2⟩
         intro q hq
-        rcases mem_amInsert hq with hq | hq
+        rcases mem_amInsert_a6 hq with hq | hq
         · subst hq; simp only; omega
         · exact h1 q hq
 
-theorem mem_amErase {β : Type} {k : Nat} {l : List (Nat × β)} {q : Nat × β} (h : q ∈ amErase k l) : q ∈ l := by
+theorem mem_amErase_a6 {β : Type} {k : Nat} {l : List (Nat × β)} {q : Nat × β} (h : q ∈ amErase k l) : q ∈ l := by
   induction l with
   | nil => simp [amErase] at h
   | cons p rest ih =>
@@ -94,16 +94,16 @@ theorem mem_amErase {β : Type} {k : Nat} {l : List (Nat × β)} {q : Nat × β}
       · exact Or.inl h
       · exact Or.inr (ih h)
 
-theorem amErase_sorted {β : Type} (k : Nat) (l : List (Nat × β)) (h : AmSorted l) : AmSorted (amErase k l) := by
+theorem amErase_sorted {β : Type} (k : Nat) (l : List (Nat × β)) (h : AmSorted_a6 l) : AmSorted_a6 (amErase k l) := by
   induction l with
-  | nil => simp [amErase, AmSorted]
+  | nil => simp [amErase, AmSorted_a6]
   | cons p rest ih =>
     obtain ⟨k2, v2⟩ := p
     obtain ⟨h1, h2⟩ := h
     simp only [amErase]
     split
     · exact h2
-    · exact ⟨fun q hq => h1 q (mem_amErase hq), ih h2⟩
+    · exact ⟨fun q hq => h1 q (mem_amErase_a6 hq), ih h2⟩
 
 theorem amLookup_none_of_lt {β : Type} (k : Nat) (l : List (Nat × β)) (h : ∀ q ∈ l, k < q.1) : amLookup k l = none := by
   induction l with
@@ -127,7 +127,7 @@ theorem amLookup_amErase_ne {β : Type} (k k' : Nat) (l : List (Nat × β)) (hne
     · rename_i h; subst h; simp only [amLookup]; rw [if_neg hne]
     · simp only [amLookup, ih]
 
-theorem amLookup_amErase_self {β : Type} (k : Nat) (l : List (Nat × β)) (h : AmSorted l) :
+theorem amLookup_amErase_self {β : Type} (k : Nat) (l : List (Nat × β)) (h : AmSorted_a6 l) :
     amLookup k (amErase k l) = none := by
   induction l with
   | nil => rfl
@@ -154,8 +154,8 @@ def absIp (st : PState) (id : Nat) : Option IpDef :=
 
 /-- parser state `st` represents template memory `d` (IPFIX part) -/
 structure ReprIp (d : List (Nat × IpDef)) (st : PState) : Prop where
-  sortedT : AmSorted st.ipT
-  sortedO : AmSorted st.ipO
+  sortedT : AmSorted_a6 st.ipT
+  sortedO : AmSorted_a6 st.ipO
   look : ∀ id, amLookup id d = absIp st id
 
 theorem absIp_t {st : PState} {id : Nat} {t : IpTemplateSpec} (h : absIp st id = some (.t t)) :
@@ -189,7 +189,7 @@ theorem ReprIp.insertT {d : List (Nat × IpDef)} {st : PState} (hr : ReprIp d st
     ReprIp (ipInsert d t.id (.t t)) { st with ipT := amInsert T.id T st.ipT, ipO := amErase T.id st.ipO } := by
   refine ⟨amInsert_sorted _ _ _ hr.sortedT, amErase_sorted _ _ hr.sortedO, ?_⟩
   intro id
-  simp only [ipInsert, amLookup_amInsert, absIp, hid]
+  simp only [ipInsert, amLookup_amInsert_a6, absIp, hid]
   by_cases h : id = t.id
   · simp only [h, ↓reduceIte]
     obtain ⟨tid, tfs⟩ := t
@@ -203,7 +203,7 @@ theorem ReprIp.insertO {d : List (Nat × IpDef)} {st : PState} (hr : ReprIp d st
     ReprIp (ipInsert d t.id (.o t)) { st with ipO := amInsert T.id T st.ipO, ipT := amErase T.id st.ipT } := by
   refine ⟨amErase_sorted _ _ hr.sortedT, amInsert_sorted _ _ _ hr.sortedO, ?_⟩
   intro id
-  simp only [ipInsert, amLookup_amInsert, absIp, hid]
+  simp only [ipInsert, amLookup_amInsert_a6, absIp, hid]
   by_cases h : id = t.id
   · simp only [h, ↓reduceIte, amLookup_amErase_self _ _ hr.sortedT]
     obtain ⟨tid, tsc, tfs⟩ := t
@@ -270,7 +270,7 @@ def Tables.ipfixOk (t : Tables) : Bool :=
     { name := "header_id", kind := .wire 2, tw := 2 },
     { name := "length", kind := .wire 2, tw := 2 } ]) &&
   decide (2 < t.ipSetMinRange) && decide (t.ipSetMinRange ≤ 256) && decide (t.ipOptTemplateId = 3) &&
-  DnArmsOk t.dnArms && decide (t.dispatch.lookup 10 = some 10)
+  DnArmsOk_a6 t.dnArms && decide (t.dispatch.lookup 10 = some 10)
 
 /-- conditions on a data set governed by a template with field list `fs` -/
 def ipDataConf (c : Config) (fs : List IpTField) (recs : List (List FieldBytes)) (pad : Bytes) : Bool :=
@@ -360,7 +360,7 @@ theorem ipParseSet_frame (c : Config) (ht : c.t.ipfixOk = true) (st : PState) (i
       | (st', .panic) => (st', .panic)
       | (st', .overflow) => (st', .overflow) := by
   obtain ⟨g1, g2⟩ := setHdr_get c ht id (body.length + 4)
-  simp only [ipParseSet, parseSetHdr_frame c ht id body rest hid hlen, g1, g2, Nat.add_sub_cancel, takeN_append]
+  simp only [ipParseSet, parseSetHdr_frame c ht id body rest hid hlen, g1, g2, Nat.add_sub_cancel, takeN_append_a6]
   cases ipParseBody c st id body with
   | mk s r => cases r <;> rfl
 
@@ -372,7 +372,7 @@ theorem ipRecLoop_data (c : Config) (names : List (Nat × String)) (ht : c.t.ipf
     fs.isEmpty = false ∧
     ipRecLoop c fs (((recs.flatMap fun r => r.flatMap encFieldBytes) ++ pad).length + 1)
       ((recs.flatMap fun r => r.flatMap encFieldBytes) ++ pad) = .ok (rs.flatten, pad) := by
-  have harms : DnArmsOk c.t.dnArms = true := by
+  have harms : DnArmsOk_a6 c.t.dnArms = true := by
     simp only [Tables.ipfixOk, Bool.and_eq_true] at ht
     exact ht.1.2
   simp only [ipDataConf, Bool.and_eq_true, Bool.not_eq_true', List.all_eq_true] at hconf
